@@ -67,13 +67,51 @@ fn any_frame(k: u64, rng: &mut StdRng) -> Frame {
     }
 }
 
-fn invalid_name(k: u64) -> TopicName {
+/// the longest name (namespace + topic, in bytes) a registration frame of this role can carry within
+/// the frame limit, found with the real codec
+fn max_name_len(role: &str) -> usize {
+    use selium_protocol::MessageCodec;
+    use tokio_util::codec::Encoder;
+    static MAX: std::sync::OnceLock<std::sync::Mutex<std::collections::HashMap<String, usize>>> = std::sync::OnceLock::new();
+    let m = MAX.get_or_init(Default::default);
+    if let Some(v) = m.lock().unwrap().get(role) {
+        return *v;
+    }
+    let mut l = 1024 * 1024usize;
+    loop {
+        let f = reg_frame(role, TopicName::_create_unchecked(&"a".repeat(l - 5), "topic"));
+        let mut buf = bytes::BytesMut::new();
+        if MessageCodec.encode(f, &mut buf).is_ok() {
+            break;
+        }
+        l -= 1;
+    }
+    m.lock().unwrap().insert(role.to_string(), l);
+    l
+}
+
+/// names the grammar refuses: the classes of TopicName.tla made concrete, among them long ones, ones
+/// made of multi-byte characters (at changing byte offsets) and ones that fill the frame to its limit
+fn invalid_name(k: u64, role: &str) -> TopicName {
     let v: [(&str, &str); 8] = [
         ("ab", "topic"), ("selium", "topic"), ("seliumfoo", "bar"), ("name space", "topic"), ("namespace", "t!"),
         ("namespace", ""), ("é€", "topic"), ("namespace", "x/y/z"),
     ];
-    let (a, b) = v[(k % 8) as usize];
-    TopicName::_create_unchecked(a, b)
+    let h = k.wrapping_mul(0x9E37_79B9_7F4A_7C15) >> 20;
+    match k % 13 {
+        8 => TopicName::_create_unchecked(&format!("{}{}", "abc".get(..(h % 4) as usize).unwrap_or(""), "é".repeat(33 + (h % 90) as usize)), "topic"),
+        9 => TopicName::_create_unchecked(&"a".repeat([65usize, 97, 300, 4096, 70_000][(h % 5) as usize]), "topic"),
+        10 => {
+            let l = max_name_len(role) - (h % 3) as usize;
+            TopicName::_create_unchecked(&"a".repeat(l - 5), "topic")
+        }
+        11 => TopicName::_create_unchecked(&["€", "𝄞", "aé€𝄞"][(h % 3) as usize].repeat(22 + (h % 60) as usize), "t€"),
+        12 => TopicName::_create_unchecked("namespace", &format!("{}{}", "x".repeat((h % 7) as usize), "ü".repeat(40 + (h % 80) as usize))),
+        j => {
+            let (a, b) = v[(j % 8) as usize];
+            TopicName::_create_unchecked(a, b)
+        }
+    }
 }
 
 async fn first_reply(st: &mut BiStream) -> (String, u32) {
@@ -166,7 +204,7 @@ async fn server_case(env: &Env, client: &Client, raw: &quinn::Connection, run: u
         let frame = if fr == "other" {
             other_frame(run + i as u64)
         } else if tp == "invalid" {
-            reg_frame(fr, invalid_name(run + i as u64))
+            reg_frame(fr, invalid_name(run + i as u64, fr))
         } else {
             reg_frame(fr, name(tp).0)
         };
@@ -479,7 +517,7 @@ pub async fn cmd_server(args: Vec<String>) -> Result<()> {
         for f in [
             reg_frame("req", TopicName::try_from(t_ps.as_str())?),
             reg_frame("pub", TopicName::try_from(t_rr.as_str())?),
-            reg_frame("sub", invalid_name(seed)),
+            reg_frame("sub", invalid_name(seed, "sub")),
             other_frame(seed),
         ] {
             let mut st = raw_stream(&slow).await?;
